@@ -40,6 +40,7 @@ type c14Field struct {
 
 type c14Method struct {
 	recv, name    string
+	exported      bool
 	ptrRecv       bool
 	needsPtr      bool
 	mapAccesses   int
@@ -97,6 +98,9 @@ type c14Interp struct {
 	m        *c14Method
 	deferred bool
 	unknown  string
+	entry    bool                     // lock state on entry (false for an API method, the caller's state for an inlined helper)
+	helpers  map[string]*ast.FuncDecl // other methods of the same receiver type (inlined at their call sites)
+	depth    int
 }
 
 func (in *c14Interp) fail(why string) {
@@ -157,6 +161,20 @@ func (in *c14Interp) expr(e ast.Node, locked bool) {
 				in.fail("mutex " + op + " inside an expression")
 				return false
 			}
+			// recv.helper(...): another method of the same type
+			if se, ok := x.Fun.(*ast.SelectorExpr); ok {
+				if name, ok := in.recvField(se); ok {
+					if _, isField := in.kinds[name]; !isField {
+						if fd, ok := in.helpers[name]; ok {
+							for _, a := range x.Args {
+								in.expr(a, locked)
+							}
+							in.inline(fd, locked)
+							return false
+						}
+					}
+				}
+			}
 			// recv.<atomic>.Add(1)
 			if se, ok := x.Fun.(*ast.SelectorExpr); ok {
 				if f, ok := in.recvField(se.X); ok && in.kinds[f] == "atomic" {
@@ -211,9 +229,31 @@ func (in *c14Interp) block(stmts []ast.Stmt, locked bool) (bool, bool) {
 	return locked, false
 }
 
+// atReturn: the lock state after the return (a deferred Unlock releases it) must be the state on entry.
 func (in *c14Interp) atReturn(locked bool) {
-	if locked && !in.deferred {
+	if (locked && !in.deferred) != in.entry {
 		in.m.balanced = "no"
+	}
+}
+
+// inline interprets a call `recv.helper(...)` of another method of the same receiver type in the current
+// lock state; its accesses count for the calling method. The helper must leave the lock state unchanged.
+func (in *c14Interp) inline(fd *ast.FuncDecl, locked bool) {
+	if in.depth >= 3 {
+		in.fail("helper calls nested too deeply or recursive")
+		return
+	}
+	recvName := ""
+	if len(fd.Recv.List[0].Names) == 1 {
+		recvName = fd.Recv.List[0].Names[0].Name
+	}
+	sub := &c14Interp{recv: recvName, kinds: in.kinds, m: in.m, entry: locked, helpers: in.helpers, depth: in.depth + 1}
+	l, term := sub.block(fd.Body.List, locked)
+	if !term {
+		sub.atReturn(l)
+	}
+	if sub.unknown != "" {
+		in.fail("in helper " + fd.Name.Name + ": " + sub.unknown)
 	}
 }
 
@@ -352,7 +392,9 @@ func (in *c14Interp) stmt(st ast.Stmt, locked bool) (bool, bool) {
 	}
 }
 
-func c14LeanStr(s string) string { return "\"" + strings.ReplaceAll(strings.ReplaceAll(s, "\\", "\\\\"), "\"", "\\\"") + "\"" }
+func c14LeanStr(s string) string {
+	return "\"" + strings.ReplaceAll(strings.ReplaceAll(s, "\\", "\\\\"), "\"", "\\\"") + "\""
+}
 
 func genC14(leanRoot string) {
 	repo := os.Getenv("VERIF_REPO")
@@ -397,6 +439,22 @@ func genC14(leanRoot string) {
 			}
 		}
 	}
+	methodDecls := map[string]map[string]*ast.FuncDecl{} // receiver type -> method name -> declaration
+	for _, f := range files {
+		for _, d := range f.Decls {
+			if fd, ok := d.(*ast.FuncDecl); ok && fd.Recv != nil && fd.Body != nil {
+				rt := fd.Recv.List[0].Type
+				if st, ok := rt.(*ast.StarExpr); ok {
+					rt = st.X
+				}
+				rn := c14TypeString(rt)
+				if methodDecls[rn] == nil {
+					methodDecls[rn] = map[string]*ast.FuncDecl{}
+				}
+				methodDecls[rn][fd.Name.Name] = fd
+			}
+		}
+	}
 	var methods []c14Method
 	foreign := 0 // selectors x.f in non-method functions where f names a map/atomic/mutex field of some struct
 	shared := map[string]bool{}
@@ -437,7 +495,7 @@ func genC14(leanRoot string) {
 			}
 			rname := c14TypeString(rt)
 			kinds, ok := structs[rname]
-			m := c14Method{recv: rname, name: fd.Name.Name, ptrRecv: ptr, balanced: "yes"}
+			m := c14Method{recv: rname, name: fd.Name.Name, exported: ast.IsExported(fd.Name.Name), ptrRecv: ptr, balanced: "yes"}
 			if !ok {
 				m.unknownReason = "receiver type is not a struct of the anchored files"
 				methods = append(methods, m)
@@ -458,7 +516,7 @@ func genC14(leanRoot string) {
 			if len(fd.Recv.List[0].Names) == 1 {
 				recvName = fd.Recv.List[0].Names[0].Name
 			}
-			in := &c14Interp{recv: recvName, kinds: kinds, m: &m}
+			in := &c14Interp{recv: recvName, kinds: kinds, m: &m, helpers: methodDecls[rname]}
 			locked, term := in.block(fd.Body.List, false)
 			if !term {
 				in.atReturn(locked)
@@ -488,6 +546,10 @@ func genC14(leanRoot string) {
 	sb.WriteString(`structure MethodFact where
   recv : String
   name : String
+  /-- exported method (API operation); unexported methods are helpers: their bodies are interpreted inline at
+      the call sites inside API methods, in the lock state of the call, and the standalone facts listed for
+      them (interpreted as if called without the mutex held) are informational -/
+  exported : Bool
   /-- declared on a pointer receiver -/
   ptrRecv : Bool
   /-- the receiver struct holds a map, a mutex value or an atomic value (a value receiver would copy it) -/
@@ -534,8 +596,8 @@ func genC14(leanRoot string) {
 			sep = ""
 		}
 		bal := tri(m.unknownReason, m.balanced != "yes")
-		fmt.Fprintf(&sb, "  { recv := %s, name := %s, ptrRecv := %v, needsPtr := %v, mapAccesses := %d, mapGuarded := %s, lockOps := %d, lockBalanced := %s, atomicUses := %d, atomicOnlyAdd := %s, fieldWrites := %d }%s",
-			c14LeanStr(m.recv), c14LeanStr(m.name), m.ptrRecv, m.needsPtr, m.mapAccesses, tri(m.unknownReason, m.unguarded > 0), m.lockOps, bal,
+		fmt.Fprintf(&sb, "  { recv := %s, name := %s, exported := %v, ptrRecv := %v, needsPtr := %v, mapAccesses := %d, mapGuarded := %s, lockOps := %d, lockBalanced := %s, atomicUses := %d, atomicOnlyAdd := %s, fieldWrites := %d }%s",
+			c14LeanStr(m.recv), c14LeanStr(m.name), m.exported, m.ptrRecv, m.needsPtr, m.mapAccesses, tri(m.unknownReason, m.unguarded > 0), m.lockOps, bal,
 			m.atomicUses, tri(m.unknownReason, m.atomicBad > 0), m.fieldWrites, sep)
 		if m.unknownReason != "" {
 			fmt.Fprintf(&sb, " -- unknown: %s", m.unknownReason)
